@@ -449,3 +449,136 @@ func TestC07DHValidation(t *testing.T) {
 		}
 	}
 }
+
+// ---------------------------------------------------------------------------
+// The nil-reader path (Setup*(nil, …) takes the encapsulation randomness from crypto/rand) and the other nil / empty
+// argument forms: nil info, nil plaintext, nil aad, nil exporter context, export lengths 0 and 255*Nh. The sender's
+// values are random here, so the oracle is the REFERENCE receiver: enc is fed to rhpke.SetupR and its key, base nonce and
+// exporter secret must be what the circl sender marshals; the circl receiver must agree as well, open what the sender
+// seals and export the same values.
+func TestC07NilForms(t *testing.T) {
+	defer vlib.Done()
+	selftest(t)
+	const sub = "nil-forms"
+	idx := 0
+	for ki, id := range rhpke.KEMIDs() {
+		k := rhpke.KEMByID(id)
+		sch := hpke.KEM(id).Scheme()
+		for mode := 0; mode < 4; mode++ {
+			if isAuth(mode) && !k.Auth {
+				continue
+			}
+			for rep := 0; rep < vlib.N(1, 3); rep++ {
+				idx++
+				if idx%vlib.NShards != vlib.Shard {
+					continue
+				}
+				s := rhpke.Suite{KEM: id, KDF: kdfIDs[(ki+mode+rep)%3], AEAD: aeadIDs[(ki+2*mode+rep)%3]}
+				cs := circlSuite(s)
+				c := sweepCase(s, mode, 31+rep)
+				c.Info = nil
+				pkR, skR := sch.DeriveKeyPair(c.IkmR)
+				rskR, _, _ := k.DeriveKeyPair(c.IkmR)
+				var pkS kem.PublicKey
+				var skS kem.PrivateKey
+				var rpkS []byte
+				if isAuth(mode) {
+					pkS, skS = sch.DeriveKeyPair(c.IkmS)
+					_, rpkS, _ = k.DeriveKeyPair(c.IkmS)
+				}
+				cell := kemName(id) + "/" + modeName[mode]
+				replay := map[string]interface{}{"case": c.String()}
+				report := func(key, detail string) bool { return vlib.ReportDirect(t, key, detail+"; "+c.String(), replay) }
+				vlib.Eval(sub)
+				var encs [2][]byte
+				var sl hpke.Sealer
+				var err error
+				for i := range encs {
+					p, st := vlib.Catch(func() { encs[i], sl, err = senderSetupRd(cs, mode, pkR, nil, c.Psk, c.PskID, skS, nil) })
+					if p != nil {
+						err = fmt.Errorf("panic: %v\n%s", p, st)
+					}
+					if err != nil {
+						break
+					}
+				}
+				if err != nil {
+					if !report("C07/nil-reader/"+cell+"/error", fmt.Sprintf("Setup with a nil reader (crypto/rand) fails: %v", err)) {
+						return
+					}
+					continue
+				}
+				if bytes.Equal(encs[0], encs[1]) {
+					if !report("C07/nil-reader/"+cell+"/not-random", fmt.Sprintf("two Setup calls with a nil reader give the same enc %s", vlib.Hex(encs[0]))) {
+						return
+					}
+					continue
+				}
+				enc := take(encs[1])
+				rR, rerr := rhpke.SetupR(s, mode, enc, rskR, nil, c.Psk, c.PskID, rpkS)
+				if rerr != nil {
+					if !report("C07/nil-reader/"+cell+"/reference-receiver", fmt.Sprintf("the reference receiver refuses enc: %v", rerr)) {
+						return
+					}
+					continue
+				}
+				if !compareCtx(report, "C07/nil-reader/"+cell+"/sender", mb(sl), 0, rR, c) {
+					return
+				}
+				op, err := receiverSetup(cs, mode, skR, enc, nil, c.Psk, c.PskID, pkS)
+				if err != nil {
+					if !report("C07/nil-reader/"+cell+"/receiver-error", err.Error()) {
+						return
+					}
+					continue
+				}
+				if !compareCtx(report, "C07/nil-reader/"+cell+"/receiver", mb(op), 1, rR, c) {
+					return
+				}
+				// nil / empty message forms
+				ok := true
+				for j, m := range [][2][]byte{{nil, nil}, {[]byte{}, nil}, {nil, []byte{}}, {[]byte("pt"), nil}, {nil, []byte("aad")}} {
+					ct, err := sl.Seal(m[0], m[1])
+					ct = take(ct)
+					if err != nil || len(ct) != len(m[0])+16 {
+						ok = report("C07/nil-forms/seal", fmt.Sprintf("message %d (pt %s aad %s): err=%v len=%d", j, hx(m[0]), hx(m[1]), err, len(ct)))
+						break
+					}
+					pt, err := rR.Open(m[1], ct)
+					if err != nil || !bytes.Equal(pt, m[0]) {
+						ok = report("C07/nil-forms/reference-opens", fmt.Sprintf("message %d (pt %s aad %s): err=%v", j, hx(m[0]), hx(m[1]), err))
+						break
+					}
+					pt, err = op.Open(ct, m[1])
+					if err != nil || !bytes.Equal(pt, m[0]) {
+						ok = report("C07/nil-forms/open", fmt.Sprintf("message %d (pt %s aad %s): err=%v", j, hx(m[0]), hx(m[1]), err))
+						break
+					}
+				}
+				if !ok {
+					return
+				}
+				nh := rhpke.Nh(s.KDF)
+				for _, e := range []expReq{{nil, 0}, {[]byte{}, 0}, {nil, 1}, {nil, nh}, {[]byte{}, 255 * nh}, {nil, 255*nh - 1}, {[]byte("ctx"), 255 * nh}} {
+					want := rR.Export(e.Ctx, e.L)
+					for side, cx := range []hpke.Context{sl, op} {
+						var got []byte
+						if p, st := vlib.Catch(func() { got = take(cx.Export(e.Ctx, uint(e.L))) }); p != nil {
+							ok = report("C07/nil-forms/export-panic", fmt.Sprintf("Export(%s, %d) with 255*Nh = %d panics: %v\n%s", hx(e.Ctx), e.L, 255*nh, p, st))
+						} else if !bytes.Equal(got, want) || len(got) != e.L {
+							ok = report("C07/nil-forms/export", fmt.Sprintf("Export(%s, %d) on side %d: %s, RFC 9180 %s", hx(e.Ctx), e.L, side, vlib.Hex(got), vlib.Hex(want)))
+						}
+						if !ok {
+							return
+						}
+					}
+				}
+				vlib.Class(sub, "mode="+modeName[mode])
+				vlib.NonTrivial(sub, "", []byte(cell), []byte{byte(s.KDF), byte(s.AEAD), byte(rep)})
+			}
+		}
+	}
+	if vlib.Shard == 0 {
+		vlib.Exhaustive("C07 KEM x mode cells with a nil reader", 5*4+2*2, "every applicable cell; all shards together")
+	}
+}
